@@ -1,5 +1,6 @@
 pub mod c01;
 pub mod c06;
+pub mod c10;
 pub mod c14;
 
 use crate::run::RunCtx;
@@ -8,6 +9,7 @@ pub fn dispatch(prop: &str, rc: &mut RunCtx) -> bool {
     match prop {
         "C01" => c01::run(rc),
         "C06" => c06::run(rc),
+        "C10" => c10::run(rc),
         "C14" => c14::run(rc),
         _ => return false,
     }
